@@ -277,7 +277,7 @@ func c20r3(c *core.Ctx) {
 		if tn, ok := pk.Types.Scope().Lookup("Characteristic").(*types.TypeName); ok {
 			st := tn.Type().Underlying().(*types.Struct)
 			for i := 0; i < st.NumFields(); i++ {
-				if st.Field(i).Name() == "Value" {
+				if p.CanonFieldName(st.Field(i)) == "Value" {
 					tag = strings.Split(reflect.StructTag(st.Tag(i)).Get("json"), ",")[0]
 				}
 			}
@@ -414,7 +414,7 @@ func c20r4(c *core.Ctx) {
 					walkArgs(mu.Value, 5, func(v ssa.Value) {
 						if fl, ok2 := v.(*ssa.Field); ok2 {
 							st, _ := fl.X.Type().Underlying().(*types.Struct)
-							if st != nil && st.Field(fl.Field).Name() == "discoverable" {
+							if st != nil && p.CanonFieldName(st.Field(fl.Field)) == "discoverable" {
 								ok = true
 							}
 						}
@@ -642,8 +642,19 @@ func c20r6(c *core.Ctx) {
 	// the payload value entering the base-36 loop
 	var start ssa.Value
 	core.Instrs(f, func(i ssa.Instruction) {
-		if ph, ok := i.(*ssa.Phi); ok && ph.Comment == "payload" {
-			start = ph.Edges[0]
+		// the accumulator the base-36 loop divides: the phi that is the left operand of  x % 36 ; its initial value is
+		// the edge that is not the quotient
+		if b, ok := i.(*ssa.BinOp); ok && b.Op == token.REM {
+			if k, isK := core.ConstInt(b.Y); isK && k == 36 {
+				if ph, isPhi := core.StripConv(b.X).(*ssa.Phi); isPhi {
+					for _, e := range ph.Edges {
+						if q, isQ := e.(*ssa.BinOp); isQ && q.Op == token.QUO {
+							continue
+						}
+						start = e
+					}
+				}
+			}
 		}
 	})
 	if start == nil {
@@ -736,13 +747,27 @@ func describeOperand(v ssa.Value, f *ssa.Function) string {
 		return "const"
 	}
 	if pr, ok := v.(*ssa.Parameter); ok {
-		return pr.Name()
+		for i, q := range f.Params {
+			if q == pr {
+				return []string{"pincode", "setupId", "categoryId", "flags"}[min(i, 3)]
+			}
+		}
+		return "?"
 	}
 	if ph, ok := v.(*ssa.Phi); ok {
-		if ph.Comment == "mergedFlags" {
-			return "flags"
+		// the OR-accumulator over the elements of the flags parameter
+		for _, e := range ph.Edges {
+			if b, isB := e.(*ssa.BinOp); isB && b.Op == token.OR && (core.StripConv(b.X) == ssa.Value(ph) || core.StripConv(b.Y) == ssa.Value(ph)) {
+				other := b.Y
+				if core.StripConv(b.Y) == ssa.Value(ph) {
+					other = b.X
+				}
+				if len(f.Params) > 3 && operandReaches(other, f.Params[3], 5) {
+					return "flags"
+				}
+			}
 		}
-		return ph.Comment
+		return "phi"
 	}
 	if e, ok := v.(*ssa.Extract); ok {
 		if call, ok := e.Tuple.(*ssa.Call); ok && core.IsCall(call, "strconv.ParseUint") {
@@ -750,4 +775,22 @@ func describeOperand(v ssa.Value, f *ssa.Function) string {
 		}
 	}
 	return "?"
+}
+
+// operandReaches: target is among the transitive operands of v (bounded depth).
+func operandReaches(v, target ssa.Value, depth int) bool {
+	if v == target {
+		return true
+	}
+	if depth == 0 {
+		return false
+	}
+	if i, ok := v.(ssa.Instruction); ok {
+		for _, op := range i.Operands(nil) {
+			if *op != nil && operandReaches(*op, target, depth-1) {
+				return true
+			}
+		}
+	}
+	return false
 }
